@@ -14,8 +14,8 @@
                     displaced by the lattice vector o.  This is what the correspondence check
                     evaluates by vm_compute on every generated case.
    [dim_spec] is the independent specification on the same discrete data: spanning-tree
-   potentials, cycle voltages, rank of the voltage lattice over GF(2) and over Z (fraction-free
-   elimination).  Proofs are in DimensionalityProofs.v and Base/Cover.v. *)
+   potentials, cycle voltages, rank of the voltage lattice over GF(2) (size of the explicit span) and
+   over Z (fraction-free elimination).  Proofs are in DimensionalityProofs.v and Base/Cover.v. *)
 From Coq Require Import List Arith Bool ZArith Lia PeanoNat.
 From MV Require Import Base.Graph Base.Cover Base.ZV3.
 Import ListNotations.
@@ -229,15 +229,27 @@ Fixpoint elim2 (cs : list nat) (vs : list bvec) : nat :=
       | Some pv => S (elim2 cs' (map (fun v => if bcoord k v then bxor v pv else v) vs))
       end
   end.
-Definition rank2 (vs : list off) : nat := elim2 [0; 1; 2] (map parity vs).
+Definition rank2_elim (vs : list off) : nat := elim2 [0; 1; 2] (map parity vs).
+
+(* GF(2)-span of a list of parity masks, as an explicit duplicate-free list; the GF(2) rank of the
+   specification is log2 of its size (DimensionalityProofs.K_is_span ties it to the 2x graph) *)
+Fixpoint span2 (vs : list nat) : list nat :=
+  match vs with
+  | [] => [0]
+  | v :: r => let S := span2 r in if mem v S then S else S ++ map (Nat.lxor v) S
+  end.
+Definition rank2 (p : pbc3) (vs : list off) : nat := Nat.log2 (length (span2 (map (mask p) vs))).
 
 (* None: the bonded network of the cell contents is not connected.
    Some (r2, rZ): rank of the cycle-voltage lattice modulo 2 and over Z. *)
-Definition dim_spec (n : nat) (E : list ipair) : option (nat * nat) :=
+Definition dim_spec (n : nat) (p : pbc3) (E : list ipair) : option (nat * nat) :=
   let pot := potentials n E in
   if all_placed pot then
-    let vs := voltages pot E in Some (rank2 vs, rankZ vs)
+    let vs := voltages pot E in Some (rank2 p vs, rankZ vs)
   else None.
+(* cross-check of the two GF(2) rank computations (span size vs. elimination) *)
+Definition rank2_consistent (n : nat) (p : pbc3) (E : list ipair) : bool :=
+  let vs := voltages (potentials n E) E in rank2 p vs =? rank2_elim vs.
 
 (* ------------------------------------------------------------------------------------------ *)
 (* agreement relations used by the correspondence check (harness/props/c09.py)                  *)
@@ -259,17 +271,17 @@ Definition agree_mirror (n : nat) (p : pbc3) (E : list ipair) (impl_dim : option
   wf_E n p E && optZ_eqb (get_dim_graph n p E) impl_dim
   && natlist_eqb (clusters_1x_labels n p E) impl_labels.
 (* the implementation's answer is the GF(2) rank of the specification (None iff disconnected) *)
-Definition agree_spec (n : nat) (E : list ipair) (impl_dim : option Z) : bool :=
-  match dim_spec n E, impl_dim with
+Definition agree_spec (n : nat) (p : pbc3) (E : list ipair) (impl_dim : option Z) : bool :=
+  match dim_spec n p E, impl_dim with
   | None, None => true
   | Some (r2, _), Some d => (Z.of_nat r2 =? d)%Z
   | _, _ => false
   end.
 (* input-family condition of the property: GF(2) rank = integer rank *)
-Definition ranks_agree (n : nat) (E : list ipair) : bool :=
-  match dim_spec n E with Some (r2, rz) => r2 =? rz | None => true end.
-Definition spec_rankZ_is (n : nat) (E : list ipair) (d : option Z) : bool :=
-  match dim_spec n E, d with
+Definition ranks_agree (n : nat) (p : pbc3) (E : list ipair) : bool :=
+  match dim_spec n p E with Some (r2, rz) => r2 =? rz | None => true end.
+Definition spec_rankZ_is (n : nat) (p : pbc3) (E : list ipair) (d : option Z) : bool :=
+  match dim_spec n p E, d with
   | None, None => true
   | Some (_, rz), Some d' => (Z.of_nat rz =? d')%Z
   | _, _ => false
@@ -278,14 +290,14 @@ Definition spec_rankZ_is (n : nat) (E : list ipair) (d : option Z) : bool :=
 (* small sanity examples (tests, not theorems about the code) *)
 Example ex_chain_1d :   (* one atom bonded to its own images along x: a chain *)
   get_dim_graph 1 (true, true, true) [(0, 0, (1, 0, 0)%Z)] = Some 1%Z
-  /\ dim_spec 1 [(0, 0, (1, 0, 0)%Z)] = Some (1, 1).
+  /\ dim_spec 1 (true, true, true) [(0, 0, (1, 0, 0)%Z)] = Some (1, 1).
 Proof. vm_compute. split; reflexivity. Qed.
 Example ex_two_molecules :
-  get_dim_graph 2 (true, true, true) [] = None /\ dim_spec 2 [] = None.
+  get_dim_graph 2 (true, true, true) [] = None /\ dim_spec 2 (true, true, true) [] = None.
 Proof. vm_compute. split; reflexivity. Qed.
 Example ex_checkerboard :   (* network connected to its images only by a+b and a-b: Z-rank 2, GF(2)-rank 1 *)
   get_dim_graph 1 (true, true, false) [(0, 0, (1, 1, 0)%Z); (0, 0, (1, -1, 0)%Z)] = Some 1%Z
-  /\ dim_spec 1 [(0, 0, (1, 1, 0)%Z); (0, 0, (1, -1, 0)%Z)] = Some (1, 2).
+  /\ dim_spec 1 (true, true, false) [(0, 0, (1, 1, 0)%Z); (0, 0, (1, -1, 0)%Z)] = Some (1, 2).
 Proof. vm_compute. split; reflexivity. Qed.
 
 (* one relation per generated case: code mirror = implementation (answer and 1x partition), the
@@ -293,8 +305,8 @@ Proof. vm_compute. split; reflexivity. Qed.
    the specification's integer rank, and the harness' rank-mismatch flag is the specification's *)
 Definition check_case (n : nat) (p : pbc3) (E : list ipair) (impl_dim : option Z) (impl_labels : list nat)
            (oracleZ : option Z) (mismatch : bool) : bool :=
-  agree_mirror n p E impl_dim impl_labels && agree_spec n E impl_dim
-  && spec_rankZ_is n E oracleZ && Bool.eqb (ranks_agree n E) (negb mismatch).
+  agree_mirror n p E impl_dim impl_labels && agree_spec n p E impl_dim
+  && spec_rankZ_is n p E oracleZ && Bool.eqb (ranks_agree n p E) (negb mismatch) && rank2_consistent n p E.
 (* invariance clauses, evaluated on pairs of presentations of the same structure *)
 Definition spec_eqb (x y : option (nat * nat)) : bool :=
   match x, y with
@@ -302,5 +314,5 @@ Definition spec_eqb (x y : option (nat * nat)) : bool :=
   | Some (a, b), Some (c, d) => (a =? c) && (b =? d)
   | _, _ => false
   end.
-Definition same_spec (n1 : nat) (E1 : list ipair) (n2 : nat) (E2 : list ipair) : bool :=
-  spec_eqb (dim_spec n1 E1) (dim_spec n2 E2).
+Definition same_spec (n1 : nat) (p1 : pbc3) (E1 : list ipair) (n2 : nat) (p2 : pbc3) (E2 : list ipair) : bool :=
+  spec_eqb (dim_spec n1 p1 E1) (dim_spec n2 p2 E2).
